@@ -37,6 +37,10 @@ def plan(tier, seed):
             units.append({'kind': 'flips', 'proto': proto, 'mutual': mutual, 'slice': sl, 'nslices': nsl,
                           'per_record': 24 if q else 0, 'weight': 4})
         units.append({'kind': 'records', 'proto': proto, 'mutual': mutual, 'weight': 4})
+        if proto != 'tls13' and mutual:
+            res = [0, 1, 63, 32, 4 + seed % 20, 36 + seed % 20] if q else list(range(64))
+            for i in range(0, len(res), 3 if q else 4):
+                units.append({'kind': 'align', 'proto': proto, 'residues': res[i:i + (3 if q else 4)], 'weight': 4})
         if proto == 'tls13':
             for sl in range(2 if q else 12):
                 units.append({'kind': 'inner', 'proto': proto, 'mutual': mutual, 'slice': sl, 'nslices': 2 if q else 12,
@@ -304,5 +308,74 @@ def u_inner(ctx, u):
     cli_ctx.free()
 
 
+def u_align(ctx, u):
+    """TLCP / TLS 1.2 with client authentication, the handshake transcript steered to a chosen length modulo the hash block
+    (64): the length of the last authority name in the CertificateRequest is the free parameter (the name is a certificate
+    the server trusts besides the client's root; the client ignores it, so nothing but the Finished hash protects it).  One
+    bit is flipped in the last bytes of that message, i.e. in the bytes that share a hash block with the 4-byte
+    ServerHelloDone that follows.  The handshakes are deterministic (seeded entropy), so the residue is measured, not hoped for."""
+    from ..ref import x509 as X
+    from ..ref import sm2 as R
+    proto = T.PROTOS[u['proto']]
+    creds = T.Creds(ctx, 'c10a-%s' % u['proto'], 1)
+    o = X.priv_from_seed('c10-align-root', u['proto'])
+    ca_exts = [X.ext_basic_constraints(True), X.ext_key_usage(X.KU_KEY_CERT_SIGN | X.KU_CRL_SIGN)]
+
+    def contexts(cnlen):
+        cn = ('authority-' + 'x' * 300)[:cnlen]
+        extra = X.make_cert(cn, R.pub(o), cn, o, exts=ca_exts)
+        creds.srv_trust = T.write_file(creds.dir + '/srv_trust_a%d.pem' % cnlen, X.certs_pem([creds.pki.root, extra]))
+        return T.pair_ctx(ctx, creds, proto, True)
+
+    def measure(recs):
+        total, creq = 0, None
+        for idx, d, rec in recs:
+            if rec[0] != T.REC_HANDSHAKE:
+                break
+            total += len(rec) - 5
+            if rec[5] == 13:
+                creq = (idx, len(rec) - 5)
+            if rec[5] == 14:
+                return total, creq
+        return None, creq
+    import time as _time
+    # the hello randoms carry the clock: frozen for the unit, so that a measured transcript length is the length of the next run too
+    ctx.shim.vf_time_set(int(_time.time()))
+    for want in u['residues']:
+        cnlen, done = 140, False
+        trail = []
+        for attempt in range(8):
+            srv_ctx, cli_ctx = contexts(cnlen)
+            ok, recs = _baseline(ctx, srv_ctx, cli_ctx)
+            total, creq = measure(recs) if ok else (None, None)
+            if total is None or creq is None:
+                break
+            trail.append((cnlen, total))
+            if total % 64 == want:
+                done = True
+                break
+            srv_ctx.free()
+            cli_ctx.free()
+            cnlen += (want - total) % 64
+        if not ctx.check(total is not None and creq is not None, 'baseline:honest-handshake-failed:' + u['proto'], mutual=True, cnlen=cnlen):
+            continue
+        if not done:
+            ctx.stat('align_residue_not_reached')
+            ctx.sample({'kind': 'align-not-reached', 'want': want, 'trail': trail})
+            continue
+        ctx.stat('aligned_transcripts_residue_%s' % ('0' if want == 0 else 'other'))
+        idx, n = creq
+        for back in (1, 2, 9, 30, 59, 60, 61, 62):
+            if back > n - 8:
+                continue
+            f = T.Fault('flip', idx, n - back, 1 << ctx.rng.randrange(8))
+            _run_fault(ctx, u['proto'], srv_ctx, cli_ctx, f, 'bitflip', True, mutual=True, transcript_len_mod_64=want, back=back)
+        ctx.nontrivial('align', u['proto'], want, cnlen)
+        srv_ctx.free()
+        cli_ctx.free()
+    ctx.shim.vf_time_set(0)
+    ctx.sample({'kind': 'align', 'proto': u['proto'], 'residues': list(u['residues'])})
+
+
 def run_unit(ctx, u):
-    {'flips': u_flips, 'records': u_records, 'inner': u_inner}[u['kind']](ctx, u)
+    {'flips': u_flips, 'records': u_records, 'inner': u_inner, 'align': u_align}[u['kind']](ctx, u)
